@@ -31,6 +31,7 @@ COMPILER_REPLAYS = {
     "u_calllower": ["replay/c11/paren_call.sh", "replay/c11/neg_nullary.sh", "replay/c11/tuple_nested.sh"],
     "u_ceffect": ["replay/c04/go_fn_value.sh"],
     "u_mls": ["replay/c12/multiline_crlf.sh"],
+    "u_hirorder": ["replay/c13/hir_order.sh"],
     "u_patlit": ["replay/c03/run.sh"],
     "u_annot": ["replay/c03/annotations.sh"],
     "u_binop": ["replay/c09/short_circuit.sh"],
